@@ -175,6 +175,57 @@ def gen_program(rnd, kind):
     return start, [[a, v] for a, v in dedup.items()], regs
 
 
+# control flow that would leave a straight-line program (relative jumps are kept: their displacement is made 0)
+_FLOW_MAIN = {0xC3, 0xCD, 0xC9, 0xE9, 0x76} | {0xC2 + 8 * k for k in range(8)} | {0xC4 + 8 * k for k in range(8)} \
+    | {0xC0 + 8 * k for k in range(8)} | {0xC7 + 8 * k for k in range(8)}
+_FLOW_ED = {0x45 + 8 * k for k in range(8)}
+
+
+def gen_sweep(rnd, idxs):
+    """A straight-line program made of one instruction from each of the given opcode slots (every slot of the instruction
+    set is covered once per run over the 16 workers), with pointers, I and A near the ROM / contended / uncontended edges
+    and the clock inside the display area: what single-step checks see slot by slot is seen here by the program-level
+    pair comparison, with the state one instruction leaves feeding the next."""
+    from . import z80len
+    sl = simdrv.slots()
+    regs = [0] * 30
+    for i in (F, C, E, L, 9, 11, R, 16, 17, 18, 19, 20, 21, 22, 23):
+        regs[i] = simdrv.r8(rnd)
+    edge = (0x3FFF, 0x4000, 0x4001, 0x5AFF, 0x7FFE, 0x7FFF, 0x8000, 0x8001, 0xBFFF, 0xC000, 0xFFFE, 0xFFFF, 0x0000)
+    for hi in (B, D, H, 8, 10):
+        v = rnd.choice(edge) if rnd.random() < 0.7 else rnd.randrange(65536)
+        regs[hi], regs[hi + 1] = v >> 8, v & 255
+    regs[A] = rnd.choice((0x3F, 0x40, 0x7F, 0x80, 0xBF, 0xC0, 0xFE, 0xFF, rnd.randrange(256)))
+    regs[I] = rnd.choice((0x3F, 0x40, 0x7F, 0x80, 0xBF, 0xC0, 0xFE, 0xFF, rnd.randrange(256)))
+    regs[SP] = rnd.choice((0x4002, 0x8000, 0x7FFF, 0xFF00, 0x4001))
+    regs[IM] = rnd.choice((1, 2))
+    regs[IFF] = 0
+    regs[MEMPTR] = rnd.randrange(65536)
+    start = rnd.choice((0x8000, 0x6000, 0x7FF0, 0xC000))
+    code = []
+    for i in idxs:
+        lead = sl[i][0]
+        if (len(lead) == 1 and lead[0] in _FLOW_MAIN) or (lead[0] == 0xED and len(lead) > 1 and lead[1] in _FLOW_ED) \
+                or (lead[0] in (0xDD, 0xFD) and len(lead) > 1 and lead[1] in (0xE9, 0x76)):
+            continue
+        ins = [rnd.choice((0x40, 0x7F, 0x80, 0xFF, 0x00, rnd.randrange(256))) if b is None else b for b in lead]
+        while len(ins) < 4:
+            ins.append(rnd.choice((0x40, 0x7F, 0x80, 0xFF, 0x00, 0x01, rnd.randrange(256))))
+        n = z80len.length(ins + [0, 0], 0)
+        ins = ins[:n]
+        if len(lead) == 1 and lead[0] in (0x10, 0x18, 0x20, 0x28, 0x30, 0x38):
+            ins[1] = 0                                # falls through whether taken or not
+        code += ins
+    code += [0x18, 0xFE]
+    ov = [[(start + k) % 65536, b] for k, b in enumerate(code)] + [[0x38, 0xFB], [0x39, 0xC9]]
+    regs[PC] = start
+    regs[T] = 14335 + 224 * rnd.randrange(0, 192) + rnd.randrange(0, 128) + FRAME48 * rnd.randrange(2)
+    d = {}
+    for a, v in ov:
+        d[a] = v
+    return start, [[a, v] for a, v in d.items()], regs
+
+
 def lockstep(args):
     """(seed, nprogs, steps) -> list of trace records for MachineTrace."""
     seed, nprogs, steps = args
@@ -189,6 +240,16 @@ def lockstep(args):
         tbase = rnd.choice(tbases(FRAME48)) if rnd.random() < 0.25 else 0
         for pair in PAIRS:
             out.append(run_pair(pair, kind, regs, ov, inv, ints, steps if kind != 'edge' else 12, tbase))
+    # every opcode slot once per run: worker w of 16 takes slots w, w+16, ... in programs of 16 instructions
+    w = seed % 16
+    mine = list(range(w, 1792, 16))
+    for k in range(0, len(mine), 16):
+        for rep in range(4):
+            start, ov, regs = gen_sweep(rnd, mine[k:k + 16])
+            inv = simdrv.r8(rnd)
+            # the contended pair four times (its timing depends on where I, A and the pointers lie), the plain pair once
+            for pair in (PAIRS if rep == 0 else PAIRS[1:]):
+                out.append(run_pair(pair, 'sweep', regs, ov, inv, False, 40))
     return out
 
 
